@@ -22,6 +22,11 @@ S0 == {SExpr(e) : e \in E1} \cup {Let("x", e) : e \in Leaf \cup {Tern(C, N, IntL
 Arm == S0 \cup {Block(<<s>>) : s \in {SExpr(N), Let("w", N), Ret(IntL(5))}} \cup {Block(<<Let("w", Tern(D, IntL(1), IntL(2)))>>)}
 IfS == {If(c, a, b) : c \in {C, Or(C, D)}, a \in Arm, b \in Arm \cup {None}}
         \cup {If(c, a, b) : c \in NestCond, a \in {SExpr(N), Ret(IntL(5))}, b \in {None, SExpr(IntL(6))}}
+\* conditions that are literals (or fold to one): the branch never taken is still a br_cond target
+LitC == {Bool(TRUE), Bool(FALSE), Bin(">", IntL(1), IntL(2)), Un("!", Bool(FALSE))}
+LitIf == {If(c, a, b) : c \in LitC, a \in {SExpr(N), Block(<<>>), Let("w", N), Ret(IntL(5)), Block(<<Let("w", N)>>), Block(<<If(C, Ret(IntL(1)), None)>>)},
+                         b \in {None, SExpr(IntL(6)), Block(<<>>), Block(<<Let("u", N)>>), Ret(IntL(7))}}
+         \cup {SExpr(Tern(c, N, IntL(2))) : c \in LitC} \cup {SExpr(And(c, C)) : c \in LitC} \cup {SExpr(Or(C, c)) : c \in LitC}
 Body == {<<>>, <<SExpr(IntL(10))>>, <<Let("z", IntL(1))>>, <<Brk>>, <<Ret(IntL(30))>>, <<SExpr(IntL(20)), Brk>>,
          <<If(C, Brk, None)>>, <<If(C, Brk, None), SExpr(IntL(25))>>, <<If(C, Ret(IntL(26)), None)>>, <<Let("z", IntL(1)), SExpr(Lv("z"))>>}
 DefBody == {<<>>, <<SExpr(IntL(50))>>, <<Brk>>, <<Let("y", IntL(1))>>}
@@ -39,9 +44,11 @@ SwL == {Sw(N, cs, d) : cs \in {<<Case(IntL(0), <<SExpr(IntL(70))>>), Case(LabT, 
                                 <<Case(IntL(0), <<Brk>>), Case(LabT, <<SExpr(IntL(72))>>), Case(LabA, <<Ret(IntL(73))>>)>>,
                                 <<Case(LabT, <<>>), Case(IntL(5), <<SExpr(IntL(74))>>), Case(LabA, <<SExpr(IntL(75)), Brk>>)>>},
                          d \in {None, Def(1, <<SExpr(IntL(76))>>), Def(0, <<>>)}}
-S1 == S0 \cup IfS \cup SwOk \cup SwT \cup SwL
+S1 == S0 \cup IfS \cup SwOk \cup SwT \cup SwL \cup LitIf
 Follow == {SExpr(N), Let("y", IntL(1)), Ret(IntL(7)), Let("z", Tern(C, IntL(1), IntL(2))), If(D, SExpr(IntL(8)), None)}
 Progs == {[body |-> s] : s \in S1}
+         \cup {[body |-> Block(<<t, s>>)] : s \in LitIf, t \in {SExpr(IntL(9)), Let("v", N)}}
+         \cup {[body |-> Block(<<s, t>>)] : s \in LitIf, t \in {Let("y", IntL(1)), SExpr(N)}}
          \cup {[body |-> Block(<<s, t>>)] : s \in Sample(IfS) \cup Sample(SwOk) \cup SwT \cup SwL, t \in Follow}
          \cup {[body |-> Block(<<t, s>>)] : s \in Sample(IfS) \cup Sample(SwOk), t \in {SExpr(IntL(9)), Let("v", N)}}
          \cup {[body |-> If(c, Block(<<s>>), Block(<<t>>))] : c \in {C}, s \in Sample(SwOk), t \in {SExpr(IntL(3)), Ret(IntL(4))}}
